@@ -13,6 +13,7 @@ import (
 
 	"github.com/thomasjungblut/go-sstables/recordio"
 	"github.com/thomasjungblut/go-sstables/simpledb"
+	"github.com/thomasjungblut/go-sstables/skiplist"
 	"github.com/thomasjungblut/go-sstables/sstables"
 )
 
@@ -175,7 +176,7 @@ func (c *c19Case) Exec() {
 	must(err)
 	rioPath := filepath.Join(dir, sstables.DataFileName)
 	var closers []func() error
-	for _, sc := range c.Scans {
+	for i, sc := range c.Scans {
 		switch sc {
 		case "full":
 			it, err := tr.Scan()
@@ -199,6 +200,37 @@ func (c *c19Case) Exec() {
 			must(m.Open())
 			m.SeekNext(9)
 			closers = append(closers, m.Close)
+		case "writerseek":
+			// a writer that seeks back over its last records and is closed right away (Close truncates the file then)
+			w, err := recordio.NewFileWriter(recordio.Path(filepath.Join(dir, fmt.Sprintf("ws%d.rio", i))))
+			must(err)
+			must(w.Open())
+			var offs []uint64
+			for j := 0; j < 4; j++ {
+				o, err := w.Write([]byte(fmt.Sprintf("record %d", j)))
+				must(err)
+				offs = append(offs, o)
+			}
+			must(w.Seek(offs[2]))
+			must(w.Close())
+		case "superclose":
+			// a stacked reader one of whose members was already closed by its owner: closing the stack must still
+			// release every other member
+			var members []sstables.SSTableReaderI
+			for j := 0; j < 3; j++ {
+				td := filepath.Join(dir, fmt.Sprintf("st%d-%d", i, j))
+				must(os.MkdirAll(td, 0755))
+				_, err := writeTable(td, defaultTblOpts(), kvs)
+				must(err)
+				m, err := sstables.NewSSTableReader(sstables.ReadBasePath(td))
+				must(err)
+				members = append(members, m)
+			}
+			it, err := members[0].Scan()
+			must(err)
+			it.Next()
+			members[0].Close()
+			sstables.NewSuperSSTableReader(members, skiplist.BytesComparator{}).Close()
 		case "mmapnoopen":
 			// a handle that was created (the file is mapped by the constructor) but never opened
 			m, err := recordio.NewMemoryMappedReaderWithPath(rioPath)
@@ -339,10 +371,13 @@ func genC19(r *rand.Rand, tier string) []Case {
 			c := &c19Case{Mode: "reader"}
 			kinds := []string{"full", "abandoned", "range", "mmapseek", "seqread", "writer"}
 			if i%2 == 0 {
-				kinds = append(kinds, "mmapnoopen", "mmapbadopen")
+				kinds = append(kinds, "mmapnoopen", "mmapbadopen", "writerseek", "superclose")
 			}
 			for j := 0; j < 2+r.Intn(8); j++ {
 				c.Scans = append(c.Scans, kinds[r.Intn(len(kinds))])
+			}
+			if i%2 == 0 {
+				c.Scans = append(c.Scans, "superclose", "writerseek")
 			}
 			cases = append(cases, c)
 			continue
